@@ -152,6 +152,10 @@ func handlerProbes() []string {
 		" me #c", " me #c +ntk", " me = #c :@a +b c", " me #c i h s other H* :0 real", " me #c i h s me G :0", " me other i h * :r",
 		" :\x01\x01", " x :\x01\x01\x01", " x :\x01VERSION\x01", " x :\x01PING\x01", " x :\x01PING 1\x01", " x :\x01ACTION\x01", " #c :\x01 \x01",
 		" VERSION", " PING", " PING x", " VERSION me", " PING me", " !", " ,", " ::", " :::", " \\ ", " me :Welcome me!i@h", " me :no host", " *", " * *"}
+	// parameter counts around and beyond the protocol's limit of 15
+	for _, n := range []int{14, 15, 16, 17, 18, 40} {
+		shapes = append(shapes, strings.Repeat(" p", n), strings.Repeat(" p", n-1)+" :trailing text", " me :\x01PING"+strings.Repeat(" q", n)+"\x01")
+	}
 	srcs := []string{"", ":srv ", ":me!i@h ", ":other!u@h ", ":!@ ", ":a!b ", "@t=v :other!u@h ", "@ ", "@; :x ", ":me "}
 	var res []string
 	for _, v := range verbs {
